@@ -67,9 +67,20 @@ func makeRouteTree(l *slog.Logger, routes []Route, allowMTU bool) (*bart.Table[r
 	return routeTree, nil
 }
 
-func parseRoutes(c *config.C, networks []netip.Prefix) ([]Route, error) {
-	var err error
+// parseIntValue returns the value of a config field that must be an integer, given either as an integer or as a
+// decimal string. Any other type, or a string that is not a decimal integer, is an error.
+func parseIntValue(v any) (int, error) {
+	switch t := v.(type) {
+	case int:
+		return t, nil
+	case string:
+		return strconv.Atoi(t)
+	default:
+		return 0, fmt.Errorf("found %T", v)
+	}
+}
 
+func parseRoutes(c *config.C, networks []netip.Prefix) ([]Route, error) {
 	r := c.Get("tun.routes")
 	if r == nil {
 		return []Route{}, nil
@@ -96,12 +107,9 @@ func parseRoutes(c *config.C, networks []netip.Prefix) ([]Route, error) {
 			return nil, fmt.Errorf("entry %v.mtu in tun.routes is not present", i+1)
 		}
 
-		mtu, ok := rMtu.(int)
-		if !ok {
-			mtu, err = strconv.Atoi(rMtu.(string))
-			if err != nil {
-				return nil, fmt.Errorf("entry %v.mtu in tun.routes is not an integer: %v", i+1, err)
-			}
+		mtu, err := parseIntValue(rMtu)
+		if err != nil {
+			return nil, fmt.Errorf("entry %v.mtu in tun.routes is not an integer: %v", i+1, err)
 		}
 
 		if mtu < 500 {
@@ -172,12 +180,9 @@ func parseUnsafeRoutes(c *config.C, networks []netip.Prefix) ([]Route, error) {
 
 		var mtu int
 		if rMtu, ok := m["mtu"]; ok {
-			mtu, ok = rMtu.(int)
-			if !ok {
-				mtu, err = strconv.Atoi(rMtu.(string))
-				if err != nil {
-					return nil, fmt.Errorf("entry %v.mtu in tun.unsafe_routes is not an integer: %v", i+1, err)
-				}
+			mtu, err = parseIntValue(rMtu)
+			if err != nil {
+				return nil, fmt.Errorf("entry %v.mtu in tun.unsafe_routes is not an integer: %v", i+1, err)
 			}
 
 			if mtu != 0 && mtu < 500 {
@@ -190,12 +195,9 @@ func parseUnsafeRoutes(c *config.C, networks []netip.Prefix) ([]Route, error) {
 			rMetric = 0
 		}
 
-		metric, ok := rMetric.(int)
-		if !ok {
-			_, err = strconv.ParseInt(rMetric.(string), 10, 32)
-			if err != nil {
-				return nil, fmt.Errorf("entry %v.metric in tun.unsafe_routes is not an integer: %v", i+1, err)
-			}
+		metric, err := parseIntValue(rMetric)
+		if err != nil {
+			return nil, fmt.Errorf("entry %v.metric in tun.unsafe_routes is not an integer: %v", i+1, err)
 		}
 
 		if metric < 0 || metric > math.MaxInt32 {
@@ -246,12 +248,9 @@ func parseUnsafeRoutes(c *config.C, networks []netip.Prefix) ([]Route, error) {
 					rGatewayWeight = 1
 				}
 
-				gatewayWeight, ok := rGatewayWeight.(int)
-				if !ok {
-					_, err = strconv.ParseInt(rGatewayWeight.(string), 10, 32)
-					if err != nil {
-						return nil, fmt.Errorf("entry .weight in tun.unsafe_routes[%v].via[%v] is not an integer", i+1, ig+1)
-					}
+				gatewayWeight, err := parseIntValue(rGatewayWeight)
+				if err != nil {
+					return nil, fmt.Errorf("entry .weight in tun.unsafe_routes[%v].via[%v] is not an integer", i+1, ig+1)
 				}
 
 				if gatewayWeight < 1 || gatewayWeight > math.MaxInt32 {
